@@ -46,6 +46,7 @@ MANIFEST = {
             '7 of an else argument x 4 of the end-tag argument, in three '
             'syntaxes: all three accept (same program, same renderings) or '
             'all three reject.',
+    'more': 'Also: entity references with zero, three and repeated modifiers; tags far longer than a line (expressions of up to 600 terms, long attribute values, many attributes); white-space styles tab / CR LF / form feed / CR / vertical tab / \\x1f between the parts of a tag; 72 malformed templates that must be refused for the same reason in every spelling.',
     'note': 'Trusted: the printers of dtmc/ast.py (they define what "the '
             'same template in another syntax" means) and dtmc/fingerprint.py '
             '(fine-grained; blanks inside the raw dtml-let argument text are '
